@@ -449,6 +449,97 @@ def rule_stateless(ctx, rep, rid="R-C11-stateless"):
             r.finding("LspProject::semantic|can-return-without-analysis", w, "a path with a valid file path returns without calling Project::semantic (cached / stale diagnostics)")
 
 
+IDENTITY_TEXT = ("alloc::string::String::as_str", "<alloc::string::String as core::ops::deref::Deref>::deref", "<str as alloc::string::ToString>::to_string",
+                 "<alloc::string::String as core::clone::Clone>::clone", "<str as alloc::borrow::ToOwned>::to_owned", "<alloc::string::String as core::convert::From<&str>>::from",
+                 "<T as core::convert::Into<U>>::into", "<alloc::string::String as core::borrow::Borrow<str>>::borrow", "<T as core::convert::From<T>>::from",
+                 "<alloc::string::String as core::convert::AsRef<str>>::as_ref", "alloc::str::<impl str>::to_string", "alloc::str::<impl alloc::borrow::ToOwned for str>::to_owned",
+                 "<alloc::string::String as alloc::string::ToString>::to_string")
+
+
+def text_origin(b, operand, depth=12):
+    """where does a text operand come from?  Follows moves, reborrows and identity conversions (IDENTITY_TEXT).  Returns
+    ("param", n) | ("field", struct, name) | ("call", callee) | ("?", ...)"""
+    p = op_place(operand)
+    for _ in range(depth):
+        if p is None:
+            return ("const",)
+        rt = b.root(p)
+        fs = [x for x in rt[1] if isinstance(x, list) and x[0] == "f"]
+        if fs:
+            return ("field", fs[-1][3], fs[-1][2])
+        if 1 <= rt[0] <= b.f["argc"]:
+            return ("param", rt[0])
+        d = b.single_def(rt[0])
+        if d and d[0] == "call":
+            c = d[2]
+            nm = c.callee or c.u or "?"
+            ident = nm in IDENTITY_TEXT or (nm == "<T as alloc::string::ToString>::to_string" and (c.ga or "") in ("[str]", "[alloc::string::String]", "[&str]"))
+            if ident and c.args:
+                p = op_place(c.args[0])
+                continue
+            return ("call", nm)
+        return ("?", rt[0])
+    return ("?", "depth")
+
+
+def rule_doctext(ctx, rep, rid="R-C11-doctext"):
+    """The diagnostics of a document are those of the text the client sent only if that text reaches the analysed Source unchanged.
+    Four hand-overs: notification parameter -> LspProject::change_text_document -> Project::change_text_document -> Source::new ->
+    Source.data.  At each, the text operand is the function's own text parameter (or the `text` field of the protocol structure),
+    reached through moves and identity conversions only; any other call on the way (a normalisation, a trim) is reported."""
+    r = rep.rule(rid, "the text of didOpen/didChange reaches Source.data unchanged: at every hand-over the operand is the incoming text itself "
+                      "(moves and identity conversions only)", floor=5, floor_what="hand-overs of the document text")
+
+    def check(inst, b, c_or_loc, operand, want, what):
+        o = text_origin(b, operand)
+        where = loc_str(b.f, c_or_loc)
+        ok = (want[0] == "param" and o == want) or (want[0] == "field" and o[0] == "field" and o[2] == want[1] and o[1].startswith("lsp_types::"))
+        if ok:
+            r.ok(inst, where, what)
+        elif o[0] == "call":
+            r.finding(inst + "|text-transformed", where, "the document text passes through %s() before it is stored: the server analyses a different text than the "
+                      "client sent (positions and end-of-input errors move)" % o[1].split("::")[-1].replace(">", ""))
+        else:
+            r.finding(inst + "|text-not-forwarded", where, "the operand is %s, not the incoming text" % (o,))
+    # 1. notification handlers
+    n1 = 0
+    for b in sorted(ctx.prog.bodies.values(), key=lambda x: x.id):
+        if b.f["crate"] != "ironplcc" or "::test" in norm(b.id) or norm(b.id).startswith("ironplcc::lsp_project::"):
+            continue
+        k = 0
+        for c in sorted(b.calls(), key=lambda c: (c.loc[0], c.loc[1])):
+            if (c.callee or "") == "ironplcc::lsp_project::LspProject::change_text_document":
+                k += 1
+                n1 += 1
+                check("%s|change_text_document#%d" % (norm(b.id).replace("ironplcc::", ""), k), b, c.loc, c.args[2], ("field", "text"), "the `text` of the notification")
+    if not n1:
+        r.finding("lsp|no-handler", "plc2x/src/lsp.rs", "no caller of LspProject::change_text_document found")
+    # 2-3. the two change_text_document layers
+    for fid, callee_suffix, argi, parm in (("ironplcc::lsp_project::LspProject::change_text_document", "change_text_document", 2, 3),
+                                            ("<ironplcc::project::FileBackedProject as ironplcc::project::Project>::change_text_document", "source::Source::new", 0, 3)):
+        bs = ctx.prog.get(fid)
+        if not bs:
+            rep.error(rid, fid + " not found")
+            continue
+        b = bs[0]
+        cs = [c for c in b.calls() if (c.callee or c.u or "").endswith(callee_suffix)]
+        if not cs:
+            r.finding("%s|no-forward" % fid.split("::")[-2].replace(" as ironplcc", ""), "%s:%d" % (b.f["file"], b.f["line"]), "does not call %s" % callee_suffix)
+        for c in cs:
+            check("%s -> %s" % (re.sub(r".*::(\w+)( as .*)?>?::change_text_document", r"\1::change_text_document", norm(fid)), callee_suffix.split("::")[-1] if "Source" not in callee_suffix else "Source::new"),
+                  b, c.loc, c.args[argi], ("param", parm), "its own `content` parameter")
+    # 4. Source::new stores its parameter
+    bs = ctx.prog.get("ironplcc::source::Source::new")
+    if not bs:
+        rep.error(rid, "Source::new not found")
+        return
+    b = bs[0]
+    for i, j, st in b.all_stmts():
+        if st[0] == "=" and st[2][0] == "agg" and isinstance(st[2][1], dict) and st[2][1].get("adt") == "ironplcc::source::Source":
+            ops = dict(zip(st[2][1]["fields"], st[2][2]))
+            check("Source::new -> Source.data", b, st[3], ops["data"], ("param", 1), "its own `source` parameter")
+
+
 def run(ctx, rep):
     rep.not_decided += ["equality of published content with a freshly started server", "equality of positions with `check` beyond the shared entry point",
                         "history independence beyond cache coherence and R-C06-hash (hash order depends on insertion history)"]
@@ -460,6 +551,7 @@ def run(ctx, rep):
     rule_stateless(ctx, rep)
     rule_keyorder(ctx, rep)
     rule_idorigin(ctx, rep)
+    rule_doctext(ctx, rep)
     from rules import c06_globals
     c06_globals.run(ctx, rep, rid="R-C11-globals")
     from rules.c05 import rule_units
